@@ -88,6 +88,9 @@ class YamlInterface(FileInterface):
     def save(self, filename: str, data: dict) -> None:   # pragma: no cover
         """Save config to yaml file."""
         with open(filename, 'w', encoding='utf8') as output_file:
-            _yaml.default_flow_style = False
-            _yaml.line_break = ''
-            _yaml.dump(data, output_file)
+            # Dump with a fresh instance: after a failed dump (e.g. disk full) a ruamel YAML
+            # instance stays bound to the old stream and every later dump fails as well.
+            dumper = yaml.YAML(typ='safe')
+            dumper.default_flow_style = False
+            dumper.line_break = ''
+            dumper.dump(data, output_file)
